@@ -24,6 +24,7 @@ type LoopCtx struct {
 	IterCount string // term: number of completed iterations (#i)
 	Enum      string // UF name for #key
 	Card      string
+	KeyT      types.Type
 	Vars      map[string]TV // loop variables by source name
 }
 
@@ -180,7 +181,7 @@ func (env *Env) eval(e Expr) TV {
 		if e.Hi != nil {
 			hi = env.evalInt(e.Hi)
 		}
-		return TV{V: Val{K: VSlice, Fs: []Val{x.V.Fs[0], vInt(mkApp("+", x.V.Fs[1].T, lo)), vInt(mkApp("-", hi, lo)), vInt(mkApp("-", x.V.Fs[3].T, lo))}}, T: x.T}
+		return TV{V: Val{K: VSlice, Fs: []Val{x.V.Fs[0], vInt(ex.sidx(x.V.Fs[1].T, lo)), vInt(mkApp("-", hi, lo)), vInt(mkApp("-", x.V.Fs[3].T, lo))}}, T: x.T}
 	case *ECall:
 		return env.evalCall(e)
 	case *EQuant:
@@ -581,7 +582,12 @@ func (env *Env) evalHash(e *EHash) TV {
 		if env.loop.Enum == "" || len(e.Args) != 1 {
 			efail("#key(j) needs a map-range loop")
 		}
-		return TV{V: vInt(mkApp(env.loop.Enum, env.evalInt(e.Args[0]))), T: nil}
+		kt := mkApp(env.loop.Enum, env.evalInt(e.Args[0]))
+		if env.loop.KeyT != nil {
+			v, _ := unflatten(env.loop.KeyT, []string{kt})
+			return TV{V: v, T: env.loop.KeyT}
+		}
+		return TV{V: vInt(kt), T: nil}
 	case "card":
 		return TV{V: vInt(env.loop.Card), T: untypedInt}
 	}
@@ -982,27 +988,10 @@ func (env *Env) modLocs(e Expr) []ModLoc {
 			}
 			efail("no ghost field %s", e.F)
 		}
-		bt, isPtr := derefType(x.T)
-		if !isPtr {
-			efail("modifies x.f: x must be a pointer")
-		}
-		obj, index, _ := types.LookupFieldOrMethod(bt, true, ex.prog.Pkg.Types, e.F)
-		fld, okf := obj.(*types.Var)
-		if !okf {
-			efail("no field %s", e.F)
-		}
-		p := *x.V.P
-		cur := bt
-		for _, ix := range index {
-			cs := cur.Underlying().(*types.Struct)
-			f := cs.Field(ix)
-			p.Path += f.Name() + "."
-			p.Elem = f.Type()
-			cur = f.Type()
-		}
-		_ = fld
+		_ = x
+		p, pt := env.addrOf(e)
 		var out []ModLoc
-		for _, l := range ptrLocs(&p, p.Elem) {
+		for _, l := range ptrLocs(p, pt) {
 			ex.get(env.st, l.Key, l.Sort)
 			out = append(out, ModLoc{Key: l.Key, Sort: l.Sort, Idx: l.Idx})
 		}
@@ -1063,4 +1052,79 @@ func (env *Env) modLocs(e Expr) []ModLoc {
 // containing the bound variable position), falling back to the whole term.
 func firstApp(t string) string {
 	return t
+}
+
+// addrOf computes the address of an lvalue expression (x.f, x.f.g, *p, s[i]).
+func (env *Env) addrOf(e Expr) (*Ptr, types.Type) {
+	ex := env.ex
+	switch e := e.(type) {
+	case *EUnary:
+		if e.Op == "*" {
+			x := env.eval(e.X)
+			if x.V.K != VPtr {
+				efail("dereference of non-pointer")
+			}
+			return x.V.P, x.V.P.Elem
+		}
+	case *EIndex:
+		x := env.eval(e.X)
+		i := env.evalInt(e.I)
+		if x.V.K == VSlice {
+			et := x.T.Underlying().(*types.Slice).Elem()
+			return &Ptr{Root: "elem", Base: et, Ref: x.V.Fs[0].T, Idx: ex.sidx(x.V.Fs[1].T, i), Elem: et}, et
+		}
+	case *ESel:
+		// base: pointer value, or the address of an addressable struct
+		var base Ptr
+		var bt types.Type
+		xv := func() (tv TV, ok bool) {
+			defer func() {
+				if r := recover(); r != nil {
+					if _, isE := r.(evalErr); isE {
+						ok = false
+						return
+					}
+					panic(r)
+				}
+			}()
+			return env.eval(e.X), true
+		}
+		if tv, ok := xv(); ok && tv.V.K == VPtr {
+			if _, isP := tv.T.Underlying().(*types.Pointer); isP {
+				base = *tv.V.P
+				bt = tv.T.Underlying().(*types.Pointer).Elem()
+			}
+		}
+		if bt == nil {
+			p, t := env.addrOf(e.X)
+			base, bt = *p, t
+		}
+		obj, index, _ := types.LookupFieldOrMethod(bt, true, ex.prog.Pkg.Types, e.F)
+		if obj == nil {
+			if n, ok := bt.(*types.Named); ok && n.Obj().Pkg() != nil {
+				obj, index, _ = types.LookupFieldOrMethod(bt, true, n.Obj().Pkg(), e.F)
+			}
+		}
+		if fld, ok := obj.(*types.Var); !ok || !fld.IsField() {
+			efail("no field %s in %s", e.F, bt)
+		}
+		cur := bt
+		for _, ix := range index {
+			cs, ok := cur.Underlying().(*types.Struct)
+			if !ok {
+				efail("field path through non-struct %s", cur)
+			}
+			f := cs.Field(ix)
+			name := f.Name()
+			if name == "_" {
+				name = fmt.Sprintf("_%d", ix)
+			}
+			base.Path += name + "."
+			base.Elem = f.Type()
+			cur = f.Type()
+		}
+		return &base, cur
+	}
+	efail("not an addressable location")
+	return nil, nil
 }
